@@ -48,9 +48,11 @@ Verdict(r) ==
   \* the third way through the command line: --auto-all-keyboards (the devices the supervisor goes on to open in its first round)
   \cup (IF "sel_auto" \in DOMAIN r /\ r.auto_seen /\ ToSetOf(r.sel_auto) # Expected(r) THEN {"C16-selection-auto-all-keyboards"} ELSE {})
   \cup (IF "sel_auto" \in DOMAIN r /\ r.panicked_auto THEN {"C16-binary-panics"} ELSE {})
-  \* list_keyboards shows every keyboard outside the virtual tree (exclusion does not apply there)
-  \cup (IF ToSetOf(r.listed) # ListedExpected(r) THEN {"C16-list_keyboards"} ELSE {})
 Unobserved(r) == (IF ObsAll(r) THEN {} ELSE {"all-keyboards"}) \cup (IF r.nodes = <<>> \/ ObsDev(r) THEN {} ELSE {"dev-file"}) \cup (IF r.nodes = <<>> \/ ObsAlt(r) THEN {} ELSE {"dev-file-by-other-name"})
+\* `totalmapper list_keyboards` (every keyboard outside the virtual tree; exclusion does not apply there) is not one of the discovery paths C16 names, and
+\* its output format is nobody's contract: a difference is reported as an auxiliary line only
+ASSUME \A i \in 1..Len(Res): ToSetOf(Res[i].listed) # ListedExpected(Res[i]) =>
+          PrintT(<<"AUX", Res[i].id, "list_keyboards shows other devices than the keyboards outside the virtual tree (or in another format)", Res[i].listed>>)
 ASSUME \A i \in 1..Len(Res): Unobserved(Res[i]) # {} => PrintT(<<"AUX", Res[i].id, "the binary's --verbose text is not consistent with itself on these paths (not judged here)", Unobserved(Res[i])>>)
 Judge(i) == LET r == Res[i]  v == Verdict(r) IN
             v # {} => PrintT(<<IF v \subseteq KnownIds THEN "KNOWN" ELSE "BAD", r.id, v>>)
